@@ -144,6 +144,7 @@ def main(pid, tier, repo=None):
     ctx = Ctx(pid, tier, configs=("workspace",), repo=repo)
     rule_feed_consumed(ctx)
     rule_carry(ctx)
+    rule_init_offsets(ctx)
     bs = ctx.prog.crate("jxl_bitstream")
     c10.rule_consumed(ctx, bs)
     c10.rule_boxhdr(ctx, bs)
@@ -159,3 +160,113 @@ def main(pid, tier, repo=None):
         "feed functions, re-storing of the unconsumed remainder on every successful exit of the frame loader, prefix-closedness of "
         "the box-header parser, end-of-input finalisation of auxiliary boxes, and the classification of end-of-data as "
         "need-more-data on every wrapping route. Equality of the two executions' results is not decided.")
+
+
+TRY_INIT = "jxl_oxide::UninitializedJxlImage::try_init"
+
+
+def rule_init_offsets(ctx):
+    """try_init: what is removed from the carry-over buffer is covered by a length check and is what is recorded as the offset"""
+    from .. import validation
+    from ..symexpr import Sym, show
+    rid = "R-INIT-OFFSETS"
+    ctx.rule(rid, "UninitializedJxlImage::try_init: (a) the amount drained from the carry-over buffer is `bytes the bit reader consumed` "
+                  "(+ the size of a skipped preview frame); whenever it includes more than the reader consumed, a dominating check "
+                  "`buffer.len() < the same amount -> NeedMoreData` exists (otherwise drain panics on a partial feed); (b) the offset "
+                  "recorded for the frame loader (JxlImageInner.buffer_offset) is the same amount that was drained (frame offsets are "
+                  "reported relative to it).  Amounts are compared in a symbolic normal form of the MIR expressions (sums flattened, "
+                  "alternatives of if/match expressions expanded)")
+    f = ctx.prog.fn(TRY_INIT)
+    if f is None:
+        ctx.anchor_missing(rid, TRY_INIT)
+        return
+    ctx.seen(f)
+    sym = Sym(f)
+    defs = sym.defs
+    drains = [(b, t) for b, t in f.calls() if callee(t) and callee(t)["fn"].endswith("::drain") and "Vec" in callee(t)["fn"]]
+    if len(drains) != 1:
+        ctx.anchor_missing(rid, "the single Vec::drain in try_init (found %d)" % len(drains))
+        return
+    db, dt = drains[0]
+    # the range argument `..n`
+    rl = op_local(dt[2][1]) if len(dt[2]) > 1 else None
+    d = defs.single(rl) if rl is not None else None
+    if not (d and d[2] == "assign" and d[3][2][0] == "agg" and "RangeTo" in str(d[3][2][1][1])):
+        ctx.bad(rid, "drain-range-shape", "the carry-over buffer is not drained with a `..n` range", fn=f, pos=dt[-2])
+        return
+    D = sym.operand(d[3][2][2][0])
+    reader = [x for x in D if "ret:num_read_bits" in repr(x)]
+    if not reader or len(reader) != len(D):
+        ctx.bad(rid, "drain-amount", "the drained amount is not derived from Bitstream::num_read_bits(): %s" % sorted(show(x) for x in D), fn=f, pos=dt[-2])
+        return
+    # (a) alternatives with an extra term need the same bound in a dominating reject check
+    # comparisons `buffer.len() < E` whose "too short" edge leaves the function without reaching the drain
+    bounds = set()
+    reach_cache = {}
+    for gb, blk in enumerate(f.blocks):
+        if blk[2] or blk[1][0] != "switch":
+            continue
+        cl = op_local(blk[1][1])
+        cmp_st = None
+        for st in blk[0]:
+            if st[0] == "=" and st[1] == [cl] and st[2][0] == "bin" and st[2][1] in ("Lt", "Gt", "Le", "Ge"):
+                cmp_st = st
+        if cmp_st is None:
+            continue
+        A, B = sym.operand(cmp_st[2][2]), sym.operand(cmp_st[2][3])
+        op = cmp_st[2][1]
+        is_len = lambda X: any("len(" in show(x) and "buffer" in show(x) for x in X)
+        if is_len(A) and op == "Lt":
+            E, short_when_true = B, True
+        elif is_len(B) and op == "Gt":
+            E, short_when_true = A, True
+        elif is_len(A) and op == "Ge":
+            E, short_when_true = B, False
+        elif is_len(B) and op == "Le":
+            E, short_when_true = A, False
+        else:
+            continue
+        t = blk[1]
+        zero = [x for v, x in t[2] if v == "0"]
+        if not zero:
+            continue
+        short_edge = t[3] if short_when_true else zero[0]
+        if short_edge not in reach_cache:
+            reach_cache[short_edge] = f.reachable(short_edge)
+        if db in reach_cache[short_edge]:
+            continue        # the short-buffer edge can still reach the drain: not a guard
+        bounds |= E
+    ok = True
+    for alt in sorted(D, key=repr):
+        plain = not (isinstance(alt, tuple) and alt[0] == "+")
+        if plain:
+            continue      # exactly what the reader consumed: always within the buffer the reader was created over
+        if alt in bounds:
+            ctx.ok(rid, "drain-covered:" + show(alt), "a dominating `buffer.len() < %s -> NeedMoreData` covers this amount" % show(alt), nontrivial=True, fn=f)
+        else:
+            ok = False
+            ctx.bad(rid, "drain-uncovered", "try_init drains %s bytes but the only length checks before it bound %s: on a feed that ends inside "
+                    "the skipped preview frame the drain range exceeds the buffer (panic)"
+                    % (show(alt), sorted(show(x) for x in bounds) or "nothing"), fn=f, pos=dt[-2])
+    if ok and all(not (isinstance(a, tuple) and a[0] == "+") for a in D):
+        ctx.ok(rid, "drain-covered:reader-only", "only what the bit reader consumed is drained", fn=f)
+    # (b) recorded offset == drained amount
+    INNER_ADT = "jxl_oxide::JxlImageInner"
+    adt = ctx.prog.crate("jxl_oxide").adts.get(INNER_ADT)
+    recorded = None
+    if adt:
+        names = [x[0] for x in adt["variants"][0]["fields"]]
+        for b, blk in enumerate(f.blocks):
+            if blk[2]:
+                continue
+            for st in blk[0]:
+                if st[0] == "=" and st[2][0] == "agg" and st[2][1][0] == "adt" and st[2][1][1] == INNER_ADT and "buffer_offset" in names:
+                    recorded = (sym.operand(st[2][2][names.index("buffer_offset")]), st[3])
+    if recorded is None:
+        ctx.anchor_missing(rid, "JxlImageInner { buffer_offset: .. } in try_init")
+        return
+    if recorded[0] == D:
+        ctx.ok(rid, "offset-equals-drained", "buffer_offset = %s = drained amount" % sorted(show(x) for x in D), nontrivial=True, fn=f)
+    else:
+        ctx.bad(rid, "offset-differs-from-drained", "try_init removes %s bytes from the buffer but records %s as the offset of what follows: "
+                "every frame offset reported later is shifted" % (sorted(show(x) for x in D), sorted(show(x) for x in recorded[0])), fn=f, pos=recorded[1])
